@@ -7,7 +7,10 @@
 (*  905 usage          ins [(is_post q tok)...]   chains made available / taken back, as OBSERVED     *)
 (*  909 drop           outs events                                                                   *)
 (*  950 MONITOR balanced   ins observed events of one whole life cycle                               *)
-(*  951 MONITOR quiesced   ins [resets] ++ observed events                                            *)
+(*  951 MONITOR quiesced   ins [mode] ++ observed events: mode 0 = queue_unset disables the queue,    *)
+(*                         dropping the transport does nothing; 1 = ... dropping the transport resets;*)
+(*                         2 = PCI reading: queue_unset does NOTHING, only a reset (status 0 or the    *)
+(*                         transport drop) quiesces (quiesced_pci_b)                                  *)
 (*  952 MONITOR a refused dma_alloc is reported as Err(DmaError): ins [refused; class; code]          *)
 (* Events: 1 pages dir paddr vaddr | 2 paddr vaddr pages | 3 q size desc drv dev | 4 q | 5 status |   *)
 (*         6 (transport dropped) | 7 off len | 8 (generation read) | 9 q tok (posted) |               *)
@@ -143,7 +146,10 @@ Definition teardown_monitor (k : N) (ins : list N) : list N :=
   else if k =? 951 then
     match ins with
     | resets :: r =>
-        match dec_evs (length r) r with Some tr => [b2n (quiesced_b (n2b resets) tr)] | None => [77777] end
+        match dec_evs (length r) r with
+        | Some tr => [b2n (if resets =? 2 then quiesced_pci_b tr else quiesced_b (n2b resets) tr)]
+        | None => [77777]
+        end
     | _ => [77777]
     end
   else if k =? 952 then
